@@ -1065,12 +1065,17 @@ def param_mutations(fn: ast.AST) -> list[ast.AST]:
             base = n.value
         elif isinstance(n, ast.Call) and isinstance(n.func, ast.Attribute) and n.func.attr in _MUTATING_METHODS:
             base = n.func.value
+        elif isinstance(n, ast.Call) and isinstance(n.func, ast.Attribute) and n.func.attr in ("__init__", "__setattr__", "__setstate__") and n.args \
+                and not (isinstance(n.func.value, ast.Call) and call_name(n.func.value) == "super"):
+            base = n.args[0]  # Class.__init__(obj, ...) re-initialises obj in place
+        elif isinstance(n, ast.Call) and isinstance(n.func, ast.Name) and n.func.id in ("setattr", "delattr") and n.args:
+            base = n.args[0]
         while isinstance(base, (ast.Subscript, ast.Attribute)):
             base = base.value
         if isinstance(base, ast.Name) and base.id in ps:
             # re-bound locally before the write? then it is no longer the caller's object
             rebound = any(isinstance(s, ast.Assign) and any(isinstance(t, ast.Name) and t.id == base.id for t in s.targets) and s.lineno < n.lineno
-                          for s in walk_body(fn))
+                          for s in fn.body)  # an unconditional re-binding at the top level of the function
             if not rebound:
                 out.append(n)
     return out
